@@ -166,7 +166,8 @@ def check_es(ctx, ES, x, y, ts, taumax, lag, cid, relations=False,
         ctx.violation(f"event_synchronization:{opt}:bad-return-shape",
                       {**case, "lib": repr(out)}, cid)
         return None
-    if any(_bad_range(v) for v in out):
+    if any(_bad_range(v) for v in out) or _bad_range(out[0] + out[1]):
+        # directed strengths and the total strength Q = Q(x|y)+Q(y|x)
         ctx.violation(f"event_synchronization:{opt}:out-of-range",
                       {**case, "lib": out, "ref": r}, cid)
         return out
@@ -350,7 +351,7 @@ def _cmp_matrix(M, S, tol, lo, hi):
     return diff, oor
 
 
-SYM_RANGE = {"directed": (0, 1), "symmetric": (0, 2), "antisym": (-1, 1),
+SYM_RANGE = {"directed": (0, 1), "symmetric": (0, 1), "antisym": (-1, 1),
              "mean": (0, 1), "max": (0, 1), "min": (0, 1)}
 
 
@@ -724,6 +725,11 @@ def random_matrix(r):
 def run(ctx):
     from pyunicorn.eventseries import EventSeries as ES
     L = 9 if ctx.thorough else 7
+    # ---- B1. random event matrices: guaranteed minimum (not time limited)
+    bmin = 8000 if ctx.thorough else 1200
+    for k in range(1, bmin + 1):
+        if ctx.mine(k):
+            random_case(ctx, ES, k)
     # ---- A. exhaustive pairs ------------------------------------------
     idx = 0
     for n in range(1, L + 1):
@@ -763,32 +769,42 @@ def run(ctx):
         if ctx.mine(k):
             with ctx.guard(60):
                 check_climnet(ctx, k)
-    # ---- B. random event matrices -----------------------------------------
-    k = 0
-    cap = 24000 if ctx.thorough else 1600
+    # ---- B2. more random event matrices while time is left ----------------
+    cap = 40000 if ctx.thorough else 4000
+    k = bmin
     while ctx.time_left() > 0 and k < cap:
         k += 1
-        if not ctx.mine(k):
-            continue
-        cid = f"mat:{k}"
-        if not ctx.want(cid):
-            continue
-        r = ctx.rng("mat", k)
-        M = random_matrix(r)
-        T, N = M.shape
-        ts = irregular(r, T) if r.random() < 0.5 else None
-        taumax = float(r.choice([INF, INF, 0.0, 0.5, 1.0, 2.0, 3.0, 5.0]))
-        lag = float(r.choice([0.0, 0.0, 0.0, 0.5, 1.0, 2.0]))
-        dt = r.choice(["int", "float", "int8"])
-        M = M.astype({"int": int, "float": float, "int8": np.int8}[str(dt)])
-        with ctx.guard(60):
-            check_matrix(ctx, ES, M, ts, taumax, lag, cid)
-            tsa = None if ts is None else np.asarray(ts)
-            for i in range(N):
-                for j in range(i + 1, N):
-                    a, b = (i, j) if r.random() < 0.5 else (j, i)
-                    check_es(ctx, ES, M[:, a], M[:, b], tsa, taumax, lag,
-                             f"{cid}:es:{a}:{b}", relations=True)
-                    if taumax != INF:
-                        check_eca(ctx, ES, M[:, a], M[:, b], tsa, taumax,
-                                  lag, f"{cid}:eca:{a}:{b}", relations=True)
+        if ctx.mine(k):
+            random_case(ctx, ES, k)
+
+
+def random_case(ctx, ES, k):
+    cid = f"mat:{k}"
+    if not ctx.want(cid):
+        return
+    r = ctx.rng("mat", k)
+    M = random_matrix(r)
+    T, N = M.shape
+    ts = irregular(r, T) if r.random() < 0.5 else None
+    taumax = float(r.choice([INF, INF, 0.0, 0.5, 1.0, 2.0, 3.0, 5.0]))
+    lag = float(r.choice([0.0, 0.0, 0.0, 0.5, 1.0, 2.0]))
+    dt = str(r.choice(["int", "float", "int8", "bool"]))
+    M = M.astype({"int": int, "float": float, "int8": np.int8,
+                  "bool": bool}[dt])
+    as_int = r.random() < 0.3       # integer-valued parameters as ints
+    with ctx.guard(60):
+        check_matrix(ctx, ES, M, ts, taumax, lag, cid)
+        tsa = None if ts is None else np.asarray(ts)
+        tm_s, lag_s = taumax, lag
+        if as_int and lag.is_integer():
+            lag_s = int(lag)
+        if as_int and taumax != INF and taumax.is_integer():
+            tm_s = int(taumax)
+        for i in range(N):
+            for j in range(i + 1, N):
+                a, b = (i, j) if r.random() < 0.5 else (j, i)
+                check_es(ctx, ES, M[:, a], M[:, b], tsa, tm_s, lag_s,
+                         f"{cid}:es:{a}:{b}", relations=True)
+                if taumax != INF:
+                    check_eca(ctx, ES, M[:, a], M[:, b], tsa, tm_s,
+                              lag_s, f"{cid}:eca:{a}:{b}", relations=True)
